@@ -13,6 +13,7 @@ from fgutils.its import get_rc, prune_its_to_rc, ITS
 from fgutils.utils import get_unreachable_nodes
 
 ID = "C11"
+REPEAT_PROBE = True   # engine: repeat 1 call in 5 after editing its first result in place (purity / no shared state)
 PROPS = "Props/C11.v"
 MODEL_FILES = ["Model/Prune.v", "Spec/PruneCheck.v"]
 IMPORTS = "From FGV Require Import Model.Aam Model.Prune Spec.PruneCheck."
